@@ -674,7 +674,15 @@ class RemoteWorker(Worker, metaclass=RemoteWorkerMeta):
             if result is None:
                 # we are leaving due to something which is not an Exception (SystemExit, KeyboardInterrupt, ...)
                 result = (False, None)
-            send_msg(self._socket, result, 'data: result')
+            try:
+                send_msg(self._socket, result, 'data: result')
+            except (ConnectionClosedError, WorkerTerminatedError):
+                raise
+            except Exception as e:
+                # what the target returned (or raised) cannot be serialized - nothing has been sent yet, so report
+                # that instead and still let the parent have the final state, like a process worker does
+                logger.exception('Result could not be sent')
+                send_msg(self._socket, (False, e), 'data: result')
             send_msg(self._socket, self._user_state, 'data: user state')
             logger.debug('Closing down backend-side socket')
             self._socket.shutdown(socket.SHUT_WR)
